@@ -28,7 +28,6 @@ import "crypto/sha256"
 //@   ensures cap: maxWidth > 0 ==> maxWidth <= 1 << uint(len(r0.levels)-1)
 //@   ensures sep: maxWidth > 0 ==> forall(k, 0, len(r0.levels), forall(j, 0, k, !sameobj(r0.levels[k], r0.levels[j])))
 //@   ensures sept: maxWidth > 0 ==> forall(k, 0, len(r0.levels), !sameobj(r0.levels[k], r0))
-//@   ensures sepb: maxWidth > 0 ==> forall(k, 0, len(r0.levels), !sameobj(r0.levels[k], r0.levels))
 //@   loop 1 invariant pow: 0 < lw && lw <= 1<<40 && lw&(lw-1) == 0 && (lw == 1 || lw>>1 < maxWidth)
 //@   loop 1 decreases (1<<41) - lw
 //@   loop 2 invariant rng: 0 <= l && l <= height && len(levels) == height && 1 <= height && height <= 41
